@@ -290,6 +290,26 @@ impl Engine for C06 {
                 out.push(Case { keys: ukeys.clone(), recs: recs.clone(), damages: vec![BDamage::AppendLineFrom(off)], after });
             }
         }
+        // a replacement character that legitimately occurs in the data, overwritten by byte
+        // sequences that are not UTF-8 (decoders that substitute U+FFFD must not "repair" it)
+        {
+            let fkeys = vec!["k\u{fffd}ey".to_string(), "foreign".to_string()];
+            let recs = vec![
+                RecSpec { metadata: Some(serde_json::json!({"note": "a\u{fffd}b", "\u{fffd}": 1})), ..simple_rec(1, false, Via::LibSync) },
+                RecSpec { metadata: Some(serde_json::json!("\u{fffd}\u{fffd}")), ..simple_rec(2, false, Via::LibAsync) },
+            ];
+            let mut bytes = Vec::new();
+            for r in &recs {
+                bytes.extend(reffmt::encode_record(&to_rec(&fkeys, r), EmitStyle { ascii: false, reversed: false }));
+            }
+            for off in 0..bytes.len().saturating_sub(2) {
+                if bytes[off..off + 3] == [0xEF, 0xBF, 0xBD] {
+                    for bad in [[0xF0u8, 0x90, 0x80], [0xFF, 0xFE, 0xFD], [0xC0, 0x80, 0x80], [0xED, 0xA0, 0x80], [0xE2, 0x82, 0x28]] {
+                        out.push(Case { keys: fkeys.clone(), recs: recs.clone(), damages: vec![BDamage::Overwrite { off, bytes: bad.to_vec() }], after: vec![] });
+                    }
+                }
+            }
+        }
         for (bi, recs) in buckets.iter().enumerate() {
             // the file length is known by construction: encode with the reference writer
             let len: usize = recs.iter().map(|r| reffmt::encode_record(&to_rec(&keys, r), EmitStyle { ascii: false, reversed: false }).len()).sum();
